@@ -48,7 +48,7 @@ Proof.
   cbn [obind omapM join app].
   rewrite !(N.mod_small i), !(N.mod_small t), !(N.mod_small fo), !(N.mod_small pr) by lia.
   rewrite (N.mod_small (len data)) by lia.
-  unfold cadd, two16. destruct (20 + len data <? 65536) eqn:E; [|lia]. cbn [obind].
+  rewrite (N.mod_small (20 + len data)) by lia.
   intros E'. apply Ok_inj in E'. subst r.
   eexists. split; [reflexivity|]. cbn zeta. unfold pkt_of_body. cbn [pk_body].
   change (skipn 14 (eth_ser (eth_new (mac_of_ip s) (mac_of_ip d) ETH_IPV4) ++ ?x)) with x.
